@@ -210,7 +210,7 @@ def install_fast_nx(paths_module):
 
 
 
-def eager(N, ids, directed, bits, strnodes=False):
+def eager(N, ids, directed, bits, strnodes=False, prefix=()):
     """Eager real-graph variant: all presence bits are decided first, the REAL DynGraph/DynDiGraph is built through the public
     API, and the caller runs the path code on it natively.  Returns (real graph, fully decided LazyG used as oracle side)."""
     import dynetx as dn
@@ -222,7 +222,8 @@ def eager(N, ids, directed, bits, strnodes=False):
             if i == j or (not directed and i > j):
                 continue
             for t in ids:
-                dec[(a, b, t)] = sbool(pool.pop())
+                # `prefix` presets the first bits: a partition of the bit space across conditions
+                dec[(a, b, t)] = bool(prefix[len(dec)]) if len(dec) < len(prefix) else sbool(pool.pop())
     return names, dec
 
 
